@@ -5,18 +5,21 @@ package harness
 // how the controller schedules. Together with the decision list it replays
 // exactly.
 type Plan struct {
-	Family    string                  `json:"family"`
-	Seed      int64                   `json:"seed"`
-	Urgent    bool                    `json:"urgent"` // clock advances only when no internal step is pending
-	Sched     string                  `json:"sched"`  // "random" | "pct" | "replay" | "free"
-	Depth     int                     `json:"depth,omitempty"`
-	Burst     bool                    `json:"burst,omitempty"` // now and then release all parked goroutines at once
-	Lanes     [][]Cmd                 `json:"lanes"`
-	Clients   [][]Req                 `json:"clients"`
-	Targets   map[string]TargetScript `json:"targets"`
-	MaxSteps  int                     `json:"max_steps"`
-	SettleMs  int                     `json:"settle_ms"`
-	QuantumMs int                     `json:"quantum_ms"`
+	Family     string                  `json:"family"`
+	Seed       int64                   `json:"seed"`
+	Urgent     bool                    `json:"urgent"` // clock advances only when no internal step is pending
+	Sched      string                  `json:"sched"`  // "random" | "pct" | "replay" | "free"
+	Depth      int                     `json:"depth,omitempty"`
+	Burst      bool                    `json:"burst,omitempty"`       // now and then release all parked goroutines at once
+	SnapObs    bool                    `json:"snap_obs,omitempty"`    // observe the state file at every step of every snapshot write (C12)
+	SnapSpin   int                     `json:"snap_spin,omitempty"`   // microseconds of real time spent inside snapshot steps
+	BurstEvery int                     `json:"burst_every,omitempty"` // a burst is tried every n-th step on average (default 6)
+	Lanes      [][]Cmd                 `json:"lanes"`
+	Clients    [][]Req                 `json:"clients"`
+	Targets    map[string]TargetScript `json:"targets"`
+	MaxSteps   int                     `json:"max_steps"`
+	SettleMs   int                     `json:"settle_ms"`
+	QuantumMs  int                     `json:"quantum_ms"`
 	// Decisions to replay (Sched == "replay") or advice labels.
 	Decisions []string `json:"decisions,omitempty"`
 	// Points that actually park goroutines; empty = all.
